@@ -1,1 +1,18 @@
-fn main() { println!("stub"); }
+//! Auxiliary drivers: CLI text (C51), benchmark validation (C46), plan transport (C35-C38), FFI (C45).
+mod c46;
+mod c51;
+
+fn main() {
+    let a: Vec<String> = std::env::args().collect();
+    let cmd = a.get(1).map(|s| s.as_str()).unwrap_or("");
+    match cmd {
+        "c46" => c46::main(),
+        "c51-split" => c51::split_main(),
+        "c51-print" => c51::print_main(),
+        "c51-repl" => c51::repl_main(),
+        _ => {
+            eprintln!("usage: vaux <c51-split|c51-print|c51-repl|...> [options]");
+            std::process::exit(2);
+        }
+    }
+}
